@@ -11,6 +11,19 @@ RULE = ('same generators as C01 (tie-heavy pools, repeated variable types, dupli
 SHARDS = {'quick': 4, 'thorough': 16}
 N = {'quick': 250, 'thorough': 3000}
 
+def big_dup_case(rng):
+    """More than 10 000 pre-terminals per copy of a base structure that is listed twice with different probabilities (tool-internal caches and
+    memo tables get evicted / refilled in the middle of such a run)."""
+    k = rng.randint(22, 27)
+    def rows(n, digits):
+        tot = n * (n + 1) / 2
+        return [[('%0' + str(digits) + 'd') % i, (n - i) / tot * rng.choice([1.0, 1.0, 0.999])] for i in range(n)]
+    terms = {'D1': [[str(i), p] for i, p in zip(range(10), sorted((rng.random() for _ in range(10)), reverse=True))][:min(10, k)],
+             'D2': rows(k, 2), 'D3': rows(k, 3), 'D4': rows(k, 4)}
+    pa, pb = rng.choice([(0.6, 0.4), (0.55, 0.3), (0.5, 0.25)])
+    return {'spec': {'encoding': 'utf-8', 'uuid': 'bigdup-%08x' % rng.getrandbits(32), 'base': [['D2D3D4', pa], ['D2D3D4', pb]], 'prince': [],
+                     'terms': terms, 'omen': None, 'pool': 'bigdup'}, 'flags': {'skip_brute': False, 'all_lower': False, 'folder': 'Grammar'}, 'big': True}
+
 def gen_case(rng):
     if rng.random() < 0.2:
         from .. import trained
@@ -59,9 +72,9 @@ def check_case(run, case):
         disk = oracles.Disk(path)
         lang = oracles.Language(disk, flags['skip_brute'], flags['skip_case'], flags['folder'])
         size = lang.size()
-        if size > 20000:
+        if size > (70000 if case.get('big') else 20000):
             run.inconc('language above cap'); return
-        index, total = gstream.oracle_index(lang)
+        index, total = gstream.oracle_index(lang, cap=80000)
         labsets = [(tuple(b[1]), b[2]) for b in lang.base]
         frontier = len(set(labsets)) == len(labsets) and size <= 1500
         try:
@@ -95,6 +108,9 @@ def run(run, rng):
     run.min_distinct = 5
     run.assumptions = ['well-formed rulesets; languages <= 20000 pre-terminals; frontier invariant only where base structures are pairwise distinguishable and the language has <= 1500 nodes',
                        'identity of a pre-terminal = (label sequence with C inserted, index vector); duplicate base structures count separately']
+    if run.shard[0] == 0 or run.tier == 'thorough':
+        run.ev('big_duplicate_structure_cases')
+        run.guard(big_dup_case(rng), check_case, seconds=300)
     for i in range(N[run.tier]):
         case = gen_case(rng)
         run.guard(case, check_case, seconds=60)
